@@ -16,6 +16,8 @@ ASSUMPTIONS = ['ring-bond symbols are written at the opening marker only (docs/t
                "a '%n' marker is never directly followed by a bare digit marker (would read as one marker)",
                'annotation values avoid the characters ; = , [ ] { } ( ) |']
 
+FUZZ = dict(campaigns=8, runs=2500)
+
 
 def budget(tier):
     if tier == 'thorough':
